@@ -241,6 +241,34 @@ class FakeWalFile:
         RT.rec('walWrite', p=proc(RT.buses[self.b]), b=self.b, e=be[1], ok=True, faithful=ok, why=why)
 
 
+class FaultyDir:
+    def __init__(self, b):
+        self.b = b
+
+    def mkdir(self, parents=False, exist_ok=False):
+        seq = RT.walseq
+        if [seq, 'mkdir'] in RT.sc.get('walfaults', []):
+            RT.walseq += 1
+            t = asyncio.current_task()
+            be = (RT.cur_pe.get(t) or [(self.b, -1)])[-1]
+            RT.rec('walWrite', p=proc(RT.buses[self.b]), b=self.b, e=be[1], ok=False, why='mkdir')
+            raise OSError('injected WAL mkdir fault')
+
+
+class FaultyWalPath:
+    """stands in for EventBus.wal_path: lets the harness inject a failure of the parent-directory creation"""
+
+    def __init__(self, b):
+        self.b = b
+        self.parent = FaultyDir(b)
+
+    def __str__(self):
+        return os.path.join(WALDIR, f'wal_{self.b}.jsonl')
+
+    def __fspath__(self):
+        return str(self)
+
+
 async def fake_open_file(path, mode='r', encoding=None):
     await asyncio.sleep(0)
     b = int(str(path).rsplit('_', 1)[1].split('.')[0])
@@ -531,23 +559,54 @@ async def ext_task(x, prog, slots):
                 b._runloop_task.cancel()
             continue
         if o == 'expect':
-            _, bi, key, pred, to = op
+            bi, key, pred, to = op[1], op[2], op[3], op[4]
+            cancel_after = op[5] if len(op) > 5 else None
             b = RT.buses[bi]
             k = len(RT.sc['handlers']) + RT.nextra
             RT.nextra += 1
-            RT.next_expect[asyncio.current_task()] = k
 
             def include(ev, pred=pred):
                 m = py_expect_match(pred, eid(ev))
                 if m is None:
                     raise ValueError('predicate raises')
                 return m
-            RT.rec('expectBegin', x=x, b=bi, key=key, h=k, pred=pred, timeout=to, bus=bussnap(b))
+
+            async def do_expect():
+                RT.next_expect[asyncio.current_task()] = k
+                RT.xid[asyncio.current_task()] = x
+                # recorded here: atomic with the registration of the temporary handler inside expect()
+                RT.rec('expectBegin', x=x, b=bi, key=key, h=k, pred=pred, timeout=to, bus=bussnap(b))
+                try:
+                    got = await b.expect(key, include=include, timeout=to)
+                    # recorded here: atomic with the removal of the temporary handler in expect()'s finally
+                    RT.rec('expectEnd', x=x, b=bi, got=eid(got), bus=bussnap(b))
+                    return got
+                except TimeoutError:
+                    RT.rec('expectEnd', x=x, b=bi, got=None, bus=bussnap(b))
+                    raise
+                except asyncio.CancelledError:
+                    # recorded here: atomic with the removal of the temporary handler in expect()'s finally
+                    RT.rec('expectCancel', x=x, b=bi, bus=bussnap(b))
+                    raise
+            RT.blocked[x] = ('expectCancel', {'x': x, 'b': bi})
+            t = asyncio.ensure_future(do_expect())
+            await asyncio.sleep(0)          # let expect() register its temporary handler
             try:
-                got = await b.expect(key, include=include, timeout=to)
-                RT.rec('expectEnd', x=x, b=bi, got=eid(got), bus=bussnap(b))
+                if cancel_after is not None:
+                    done, _ = await asyncio.wait({t}, timeout=cancel_after)
+                    if not done:
+                        t.cancel()
+                await t
             except TimeoutError:
-                RT.rec('expectEnd', x=x, b=bi, got=None, bus=bussnap(b))
+                pass
+            except asyncio.CancelledError:
+                if not t.done():
+                    t.cancel()
+                    raise
+                if asyncio.current_task().cancelling():
+                    raise
+            finally:
+                RT.blocked.pop(x, None)
             continue
         if o == 'dispatch':
             ev = mk_event(op[2])
@@ -618,6 +677,8 @@ async def run_sc(sc):
                    wal_path=(os.path.join(WALDIR, f'wal_{i}.jsonl') if b.get('wal') else None))
         RT.busidx[bus] = i
         RT.buses.append(bus)
+        if b.get('wal'):
+            bus.wal_path = FaultyWalPath(i)
     RT.rec('init', nb=len(RT.buses))
     for k, h in enumerate(sc['handlers']):
         bus = RT.buses[h['bus']]
@@ -644,10 +705,12 @@ async def run_sc(sc):
             # nothing has moved for a second of virtual time (longer than every timeout in use) and a task is still
             # blocked in a bus call: it hangs.  Record that and cancel it instead of waiting for the horizon.
             for x, (kind, fields) in sorted(RT.blocked.items()):
-                RT.rec(kind, **fields)
+                if kind != 'expectCancel':
+                    RT.rec(kind, **fields)
             for t in tasks:
                 t.cancel()
-            await asyncio.sleep(0)
+            for _ in range(4):
+                await asyncio.sleep(0)
             done = True
     RT.rec('final', events={i: evsnap(e) for i, e in RT.evobj.items()}, buses=[bussnap(b) for b in RT.buses],
            sem=(svc._get_global_lock()._semaphore._value if svc._get_global_lock()._semaphore else 1),
@@ -674,8 +737,13 @@ class Watchdog(BaseException):
     """wall-clock limit of one scenario exceeded (a synchronous spin is invisible to virtual time)"""
 
 
+ABORT = []
+
+
 def _on_alarm(signum, frame):
-    raise Watchdog(''.join(traceback.format_stack(frame)[-8:]))
+    st = ''.join(traceback.format_stack(frame)[-8:])
+    ABORT.append(st)          # the exception below may be swallowed by the code it interrupts; the flag is not
+    raise Watchdog(st)
 
 
 def run_scenario(sc, budget=300_000, watchdog=20):
@@ -686,6 +754,7 @@ def run_scenario(sc, budget=300_000, watchdog=20):
     loop = VLoop(budget)
     asyncio.set_event_loop(loop)
     err = None
+    ABORT.clear()
     signal.signal(signal.SIGALRM, _on_alarm)
     signal.setitimer(signal.ITIMER_REAL, watchdog)
     try:
@@ -708,6 +777,8 @@ def run_scenario(sc, budget=300_000, watchdog=20):
         except BaseException:
             pass
         asyncio.set_event_loop(None)
+    if ABORT and err is None:
+        err = ('watchdog-in-bubus: ' if '/bubus/' in ABORT[0] else 'watchdog: ') + ABORT[0]
     log = RT.log
     RT = _NullRt()
     return {'sc': sc, 'log': log, 'err': err}
